@@ -50,7 +50,7 @@ def run(ctx):
         "rule": "explicit-state BFS to fixpoint over operation histories on a pool of K interchangeable slots; alphabet: new(type,ext) / write(cell,val) / copy-ctor / move-ctor / copy-assign incl. self / move-assign / convert (copying and moving form) / dump+load / destroy; "
                 "types S=strided<size2,array<float1>>, M=morton<...,false>, W=affine<nn<S>>, V=affine<nn<M>>; extents (1,1),(2,1),(1,2); values 0..2; moved-from slots only accept assignment and destruction; "
                 "a state is the history that reaches it, replayed on fresh objects; canonical form = sorted per-slot (dead | moved-from type | type,extents,values,provenance of the buffer: new / copied / converted / loaded - kept because hidden state such as the true allocation size can differ between a fresh and a converted field; 'noprov' runs drop it to reach larger pools); every transition is executed on the implementation and checked after every operation "
-                "against the plain array model (values at all coordinates, extents, no two live fields sharing a buffer), the allocation ledger (no leak, double or foreign free at teardown) or ASan/UBSan/LSan; "
+                "against the plain array model (values at all coordinates through a fresh view AND through a view taken when the field's buffer was last built, extents, no two live fields sharing a buffer), the allocation ledger (no leak, double or foreign free at teardown) or ASan/UBSan/LSan; "
                 "'all' runs enumerate every history up to the stated length without merging states; configurations: " + ", ".join("%s=%s" % (c[0], c[2]) for c in cfgs),
         "per_run": {j.name: {k: v for k, v in j.stats.items() if k in ("states", "transitions", "max_depth", "fixpoint_reached", "all_histories_up_to_length")} for j in js if j.stats},
     })
